@@ -226,7 +226,13 @@ def edit_state(rng, domain, state, atoms):
     r = rng.random()
     ev = {"how": None, "fact": ["", []], "f": "", "a": [], "v": [0, 1]}
     try:
-        if r < 0.4 and have:
+        if r < 0.15 and before["fl"]:
+            # a fluent taken out of the state altogether: the state then assigns fewer fluents than its twin
+            f, a, _, _ = rng.choice(before["fl"])
+            for key in [k for k, fl in state.state_fluents.items() if fl.name == f and list(fl.signature.keys()) == list(a)]:
+                del state.state_fluents[key]
+            ev.update({"how": "unset", "f": f, "a": list(a)})
+        elif r < 0.4 and have:
             name, args = rng.choice(have)
             for key in list(state.state_predicates):
                 state.state_predicates[key] = {g for g in state.state_predicates[key]
